@@ -267,6 +267,76 @@ Definition mk_version (sys : system) (str : bytes) (unc : Z) (p : pstate) (nums 
   {| v_sys := sys; v_user_num_count := unc; v_is_prerelease := ps_is_pre p; v_str := str;
      v_num := nums; v_pre := ps_pre p; v_build := ps_build p; v_ext := NoExt |}.
 
+Definition mark_pre (p : pstate) : pstate :=
+  {| ps_lex := ps_lex p; ps_num := ps_num p; ps_pre := ps_pre p; ps_is_pre := true; ps_build := ps_build p |}.
+
+(* leading "v" handling *)
+Definition pf_prefix (sys : system) (allow_inf : bool) (str : bytes) : lexer :=
+  let l0 := {| l_rest := str; l_pos := O; l_last := []; l_err := false; l_inf := allow_inf |} in
+  match sys with
+  | SNPM => skip_v (S (length str)) l0
+  | SGo => let '(r, l') := lex_next l0 in if r =? 118 then l' else lex_set_err l'
+  | SComposer => let '(pk, l') := lex_peek l0 in
+                 if (pk =? 118) || (pk =? 86) then snd (lex_next l') else l'
+  | _ => l0
+  end.
+
+(* the dotted numbers; None = "no number in version string" *)
+Definition pf_numbers (sys : system) (str : bytes) (l1 : lexer) : option (Z * pstate) :=
+  let p0 := {| ps_lex := l1; ps_num := []; ps_pre := []; ps_is_pre := false; ps_build := [] |} in
+  let '(ok, p1) := parse_number sys p0 in
+  if negb ok then None
+  else
+    let '(r, l2) := lex_next (ps_lex p1) in
+    let '(r, p2) := numbers_loop sys (S (length str)) (with_lex p1 l2) r in
+    let p2 :=
+      if sys_eqb sys SNuGet && Nat.eqb (length (ps_num p2)) 4 && (get_num (ps_num p2) 3 =? 0)
+      then {| ps_lex := ps_lex p2; ps_num := firstn 3 (ps_num p2); ps_pre := ps_pre p2;
+              ps_is_pre := ps_is_pre p2; ps_build := ps_build p2 |}
+      else p2 in
+    Some (r, p2).
+
+(* the prerelease part *)
+Definition pf_pre (sys : system) (r : Z) (p3 : pstate) : res (Z * pstate) :=
+  if r =? 45 then
+    if sys_eqb sys SGo && Nat.ltb (length (ps_num p3)) 3 then Err 3%N
+    else Ok (parse_metadata sys (mark_pre p3) true)
+  else if (r =? 42) && sys_eqb sys SNuGet then
+    let '(r', l4) := lex_next (ps_lex p3) in
+    let p4 := with_lex p3 l4 in
+    if r' =? r_eof then Ok (r', p4)
+    else
+      let '(r'', p6) := parse_metadata sys (mark_pre p4) true in
+      match last_opt (ps_pre p6) with
+      | None => Err 8%N                            (* len(p.pre) == 0: the recorded error is returned *)
+      | Some le =>
+          match last_opt le with
+          | None => Panic PIndex                   (* l[len(l)-1] on an empty element: shown unreachable *)
+          | Some c => if N.eqb c 42 then Ok (r'', p6) else Err 4%N
+          end
+      end
+  else if sys_eqb sys SRubyGems && (r =? 46) then Ok (parse_metadata sys (mark_pre p3) true)
+  else Ok (r, p3).
+
+(* the build part *)
+Definition pf_build (sys : system) (str : bytes) (r : Z) (p5 : pstate) : res (Z * pstate) :=
+  if (r =? 43) && negb (sys_eqb sys SRubyGems) then
+    if sys_eqb sys SGo && Nat.ltb (length (ps_num p5)) 3 then Err 5%N
+    else
+      let start := (l_pos (ps_lex p5) - 1)%nat in
+      let '(r', p6) := parse_metadata sys p5 false in
+      let b := firstn (l_pos (ps_lex p6) - start) (skipn start str) in
+      Ok (r', {| ps_lex := ps_lex p6; ps_num := ps_num p6; ps_pre := ps_pre p6;
+                 ps_is_pre := ps_is_pre p6; ps_build := b |})
+  else Ok (r, p5).
+
+Definition pf_finish (sys : system) (str : bytes) (r : Z) (p7 : pstate) : res (version * bool) :=
+  let p8 := if negb (r =? r_eof) then set_err p7 else p7 in
+  let unc := Z.of_nat (length (ps_num p8)) in
+  let nums := if sys_eqb sys SRubyGems || sys_eqb sys SNuGet then pad3 (ps_num p8) 3 else ps_num p8 in
+  if l_err (ps_lex p8) then Err 6%N
+  else Ok (mk_version sys str unc p8 nums, false).
+
 (* versionParser.version for systems other than Maven and PyPI; the RubyGems extension
    step (gemVersion) is applied by GemParse.v to the state returned here. *)
 Definition parse_front (sys : system) (allow_inf : bool) (str : bytes) : res (version * bool) :=
@@ -274,86 +344,26 @@ Definition parse_front (sys : system) (allow_inf : bool) (str : bytes) : res (ve
     Ok ({| v_sys := sys; v_user_num_count := 0; v_is_prerelease := false; v_str := str;
            v_num := [infinity; infinity; infinity]; v_pre := []; v_build := []; v_ext := NoExt |}, true)
   else
-    let l0 := {| l_rest := str; l_pos := O; l_last := []; l_err := false; l_inf := allow_inf |} in
-    let l1 :=
-      match sys with
-      | SNPM => skip_v (S (length str)) l0
-      | SGo => let '(r, l') := lex_next l0 in if r =? 118 then l' else lex_set_err l'
-      | SComposer => let '(pk, l') := lex_peek l0 in
-                     if (pk =? 118) || (pk =? 86) then snd (lex_next l') else l'
-      | _ => l0
-      end in
-    let p0 := {| ps_lex := l1; ps_num := []; ps_pre := []; ps_is_pre := false; ps_build := [] |} in
-    let '(ok, p1) := parse_number sys p0 in
-    if negb ok then Err 1%N
-    else
-      let '(r, l2) := lex_next (ps_lex p1) in
-      let '(r, p2) := numbers_loop sys (S (length str)) (with_lex p1 l2) r in
-      let p2 :=
-        if sys_eqb sys SNuGet && Nat.eqb (length (ps_num p2)) 4 && (get_num (ps_num p2) 3 =? 0)
-        then {| ps_lex := ps_lex p2; ps_num := firstn 3 (ps_num p2); ps_pre := ps_pre p2;
-                ps_is_pre := ps_is_pre p2; ps_build := ps_build p2 |}
-        else p2 in
-      if (r =? 46) && Nat.ltb (length (ps_num p2)) 3 && negb (sys_eqb sys SRubyGems) then Err 2%N
-      else
-        let '(r, p3) :=
-          if sys_eqb sys SRubyGems && z_is_alnum r then (45, with_lex p2 (lex_back (ps_lex p2))) else (r, p2) in
-        (* prerelease *)
-        let pre_res : res (Z * pstate) :=
-          if r =? 45 then
-            if sys_eqb sys SGo && Nat.ltb (length (ps_num p3)) 3 then Err 3%N
-            else
-              let p4 := {| ps_lex := ps_lex p3; ps_num := ps_num p3; ps_pre := ps_pre p3; ps_is_pre := true;
-                           ps_build := ps_build p3 |} in
-              Ok (parse_metadata sys p4 true)
-          else if (r =? 42) && sys_eqb sys SNuGet then
-            let '(r', l4) := lex_next (ps_lex p3) in
-            let p4 := with_lex p3 l4 in
-            if r' =? r_eof then Ok (r', p4)
-            else
-              let p5 := {| ps_lex := ps_lex p4; ps_num := ps_num p4; ps_pre := ps_pre p4; ps_is_pre := true;
-                           ps_build := ps_build p4 |} in
-              let '(r'', p6) := parse_metadata sys p5 true in
-              match last_opt (ps_pre p6) with
-              | None => Err 8%N                            (* len(p.pre) == 0: the recorded error is returned *)
-              | Some le =>
-                  match last_opt le with
-                  | None => Panic PIndex                   (* l[len(l)-1] on an empty element: cannot arise *)
-                  | Some c => if N.eqb c 42 then Ok (r'', p6) else Err 4%N
-                  end
+    match pf_numbers sys str (pf_prefix sys allow_inf str) with
+    | None => Err 1%N
+    | Some (r, p2) =>
+        if (r =? 46) && Nat.ltb (length (ps_num p2)) 3 && negb (sys_eqb sys SRubyGems) then Err 2%N
+        else
+          let '(r, p3) :=
+            if sys_eqb sys SRubyGems && z_is_alnum r then (45, with_lex p2 (lex_back (ps_lex p2))) else (r, p2) in
+          match pf_pre sys r p3 with
+          | Err e => Err e
+          | Panic x => Panic x
+          | OutOfFuel => OutOfFuel
+          | Ok (r, p5) =>
+              match pf_build sys str r p5 with
+              | Err e => Err e
+              | Panic x => Panic x
+              | OutOfFuel => OutOfFuel
+              | Ok (r, p7) => pf_finish sys str r p7
               end
-          else if sys_eqb sys SRubyGems && (r =? 46) then
-            let p4 := {| ps_lex := ps_lex p3; ps_num := ps_num p3; ps_pre := ps_pre p3; ps_is_pre := true;
-                         ps_build := ps_build p3 |} in
-            Ok (parse_metadata sys p4 true)
-          else Ok (r, p3) in
-        match pre_res with
-        | Err e => Err e
-        | Panic x => Panic x
-        | OutOfFuel => OutOfFuel
-        | Ok (r, p5) =>
-            let build_res : res (Z * pstate) :=
-              if (r =? 43) && negb (sys_eqb sys SRubyGems) then
-                if sys_eqb sys SGo && Nat.ltb (length (ps_num p5)) 3 then Err 5%N
-                else
-                  let start := (l_pos (ps_lex p5) - 1)%nat in
-                  let '(r', p6) := parse_metadata sys p5 false in
-                  let b := firstn (l_pos (ps_lex p6) - start) (skipn start str) in
-                  Ok (r', {| ps_lex := ps_lex p6; ps_num := ps_num p6; ps_pre := ps_pre p6;
-                             ps_is_pre := ps_is_pre p6; ps_build := b |})
-              else Ok (r, p5) in
-            match build_res with
-            | Err e => Err e
-            | Panic x => Panic x
-            | OutOfFuel => OutOfFuel
-            | Ok (r, p7) =>
-                let p8 := if negb (r =? r_eof) then set_err p7 else p7 in
-                let unc := Z.of_nat (length (ps_num p8)) in
-                let nums := if sys_eqb sys SRubyGems || sys_eqb sys SNuGet then pad3 (ps_num p8) 3 else ps_num p8 in
-                if l_err (ps_lex p8) then Err 6%N
-                else Ok (mk_version sys str unc p8 nums, false)
-            end
-        end.
+          end
+    end.
 
 (* System.parse (internal) and System.Parse (public) for the family. *)
 Definition parse_internal (sys : system) (allow_inf : bool) (str : bytes) : res version :=
